@@ -304,6 +304,12 @@ func (t *Table) MatchSet(ps []*Pat, set Set, env Env, yield func(Env) bool) bool
 	if len(ps) == 0 {
 		return yield(env)
 	}
+	if t.Alias == nil {
+		if al := t.AliasesOf(set); al != nil {
+			t.Alias = al
+			defer func() { t.Alias = nil }()
+		}
+	}
 	// ~is(?v, p): the value bound to ?v (by the environment or an earlier
 	// pattern) matches p; not matched against the set
 	if ps[0].Kind == 'o' && ps[0].Name == "~is" && len(ps[0].Args) == 2 {
@@ -332,6 +338,13 @@ func (t *Table) matchAnd(ps []*Pat, id ID, env Env, yield func(Env) bool) bool {
 
 // Any reports whether some member of set matches p under env.
 func (t *Table) Any(p *Pat, set Set, env Env) bool {
+	if t.Alias == nil {
+		// facts of one path class: match modulo the equalities it contains
+		if al := t.AliasesOf(set); al != nil {
+			t.Alias = al
+			defer func() { t.Alias = nil }()
+		}
+	}
 	for _, id := range set {
 		if t.Match(p, id, env, func(Env) bool { return true }) {
 			return true
